@@ -274,6 +274,12 @@ theorem C07_exchange_http (pre : List Step) (s : Step) (rest : List Step) (e : E
   rw [h1]
   exact rest_of_quiet_err bef e h2
 
+/-- **every exception class** (also the ones the framework's own control flow uses: BrokenPipeError, ConnectionResetError,
+ConnectionAbortedError, OSError, EOFError, StopIteration, TimeoutError, ArrowInvalid): at each socket-family site the
+implementation's exception is answered with its error batch — nothing is intercepted ahead of `except Exception` -/
+theorem C07_socket_sites_catch_all (s : SocketSite) : socketWritesError s = true := by
+  cases s <;> decide
+
 /-! ## every order of emit / log / finish / raise inside one step -/
 
 namespace Aux
